@@ -564,7 +564,7 @@ class FsExecutor(object):
             self.fail('ebadf:%s:%s' % (fn, ename(r)), '%s on invalid descriptor %d returned %s instead of BADF' % (fn, fd, ename(r)))
         rep = a.sanitizer_report()
         if rep:
-            self.fail('sanitizer', 'sanitizer report after %s(%d): %s' % (fn, fd, rep[-600:]))
+            self.fail('sanitizer', 'sanitizer report after %s(%d): %s' % (fn, fd, cexec.san_head(rep, 600)))
 
     def prestat(self, fd):
         self.record('prestat', fd)
@@ -662,7 +662,7 @@ class FsExecutor(object):
             raise AssertionError(op)
         rep = a.sanitizer_report()
         if rep:
-            self.fail('sanitizer', 'sanitizer report during path_%s: %s' % (op, rep[-800:]))
+            self.fail('sanitizer', 'sanitizer report during path_%s: %s' % (op, cexec.san_head(rep, 800)))
         if empty or too_long:
             if r == 0:
                 self.fail('path-accepted:%s' % ('empty' if empty else 'too-long'),
@@ -871,7 +871,7 @@ class FsExecutor(object):
 
     def final_check(self):
         if self.agent.p.poll() is not None and self.agent.p.returncode not in (0, None):
-            self.fail('agent-died', 'agent exited with %r: %s' % (self.agent.p.returncode, self.agent.sanitizer_report()[-800:]))
+            self.fail('agent-died', 'agent exited with %r: %s' % (self.agent.p.returncode, cexec.san_head(self.agent.sanitizer_report(), 800)))
         for dp, dns, fns in os.walk(self.mirror):
             rel = os.path.relpath(dp, self.mirror)
             rdir = os.path.join(self.real, rel)
@@ -920,7 +920,7 @@ class FsExecutor(object):
                 self.fail('stdio', 'standard output holds %r, fd 1 was given %r' % (got[:60], self.out_expect[1][:60]))
         rep = self.agent.sanitizer_report()
         if rep:
-            self.fail('sanitizer', 'sanitizer report: ' + rep[-800:])
+            self.fail('sanitizer', 'sanitizer report: ' + cexec.san_head(rep, 800))
 
 
 def replay_history(history, npreopen=1, extra=None):
@@ -947,7 +947,7 @@ def replay_history(history, npreopen=1, extra=None):
         except Violation as v:
             return v.sig, str(v)
         except AgentDied as e:
-            return 'agent-died', '%s\n%s' % (e, e.stderr[-1500:])
+            return 'agent-died', '%s\n%s' % (e, cexec.san_head(e.stderr, 1500))
         except KeyError:
             return None
         return None
